@@ -1958,7 +1958,12 @@ impl fmt::Display for Date {
     /// instead produces a string of the form `YYYY-JJJ` (year and day of
     /// year).
     fn fmt(&self, f: &mut fmt::Formatter<'_>) -> fmt::Result {
-        write!(f, "{:04}-", self.year())?;
+        let year = self.year();
+        if year < 0 {
+            write!(f, "-{:04}-", year.unsigned_abs())?;
+        } else {
+            write!(f, "{year:04}-")?;
+        }
         if f.alternate() {
             write!(f, "{:03}", self.ordinal())?;
         } else {
